@@ -136,3 +136,36 @@ Example C15_example_program :
   = ["cd /a/b\ c && p1 && ls"; "sudo -S -p 'P:' --preserve-env='X' -H -u bob cd /a && p1 && w"; "end"]%string /\
   fst (fst (run_program cc prog)) = c0 /\ snd (run_program cc prog) = false.
 Proof. vm_compute. repeat split; reflexivity. Qed.
+
+(** Tie to the source text: the body of [normalize_hide], regenerated from
+    invoke/runners.py on every run (Generated/Tables.v), is the one
+    [OptsModel.normalize_hide] was written from.  [None] = the translator did not
+    recognise the shape (fallback to the behavioural correspondence only). *)
+From InvokeVerif Require Generated.Tables.
+Theorem C15_normalize_hide_matches_source :
+  match Generated.Tables.normalize_hide_src with
+  | Some t => t = ["hide_vals = (None, False, 'out', 'stdout', 'err', 'stderr', 'both', True)";
+                   "if val not in hide_vals: err = ""'hide' got {!r} which is not in {!r}"" raise ValueError(err.format(val, hide_vals))";
+                   "if val in (None, False): hide = [] elif val in ('both', True): hide = ['stdout', 'stderr'] elif val == 'out': hide = ['stdout'] elif val == 'err': hide = ['stderr'] else: hide = [val]";
+                   "if out_stream is not None and 'stdout' in hide: hide.remove('stdout')";
+                   "if err_stream is not None and 'stderr' in hide: hide.remove('stderr')";
+                   "return tuple(hide)"]
+  | None => True
+  end.
+Proof. vm_compute; first [reflexivity | exact I]. Qed.
+
+(** ... and the model computes that table: the documented values and nothing else. *)
+Theorem C15_hide_table :
+  normalize_hide ONone ONone ONone = Some [] /\
+  normalize_hide (OBool false) ONone ONone = Some [] /\
+  normalize_hide (OBool true) ONone ONone = Some ["stdout"; "stderr"] /\
+  normalize_hide (OStr "both") ONone ONone = Some ["stdout"; "stderr"] /\
+  normalize_hide (OStr "out") ONone ONone = Some ["stdout"] /\
+  normalize_hide (OStr "stdout") ONone ONone = Some ["stdout"] /\
+  normalize_hide (OStr "err") ONone ONone = Some ["stderr"] /\
+  normalize_hide (OStr "stderr") ONone ONone = Some ["stderr"] /\
+  (forall v o e, normalize_hide v o e <> None ->
+     In v [ONone; OBool false; OBool true; OStr "both"; OStr "out"; OStr "stdout"; OStr "err"; OStr "stderr"]) /\
+  (forall v o e l, normalize_hide v o e = Some l ->
+     (o <> ONone -> ~ In "stdout"%string l) /\ (e <> ONone -> ~ In "stderr"%string l)).
+Proof. exact hide_table. Qed.
